@@ -503,7 +503,7 @@ def fault_steps(args_validated: bool = False) -> dict[str, Step]:
     u = b"\xff\xfe{}"
     out["bad-utf8"] = step_request("bad-utf8", u, 1, fault="F3:invalid-utf8-kills-daemon")
     # json.loads raises RecursionError (not a ValueError) on this: still "not valid JSON" for receive()
-    out["deep-json"] = step_request("deep-json", b"[" * 200000, 2, fault="F3:connect-close-kills-daemon")
+    out["deep-json"] = step_request("deep-json", b"[" * 3000, 2, fault="F3:connect-close-kills-daemon")
     out["non-dict"] = step_request("non-dict", b"[1, 2]", 3, fault="F3:connect-close-kills-daemon")
     out["empty-frame"] = Step("empty-frame", [frame(b"")], True, "mk_conn [encode_frame []] true", fault="F3:connect-close-kills-daemon")
     out["oversized-header"] = Step("oversized-header", [b"\xff\xff\xff\xffabc"], False,
